@@ -56,7 +56,24 @@ class _Watchdog(KeyboardInterrupt):
     ordinary exceptions (and even BaseException in callbacks); KeyboardInterrupt is re-raised out of the loop."""
 
 
+_progress = {'n': -1, 'extensions': 0}
+
+
 def _alarm(_s, _f):
+    # a program that is still producing trace records is alive, only slow (a runaway program on its way to the record cap - the
+    # library's bookkeeping is quadratic in the history size): it gets up to ten more periods. No new record in a whole period means
+    # the process is stuck in a synchronous loop - that is what the watchdog is for.
+    try:
+        from . import engine
+        run = engine._RUN
+    except Exception:
+        run = None
+    n = run.n if run is not None else -1
+    if run is not None and n != _progress['n'] and _progress['extensions'] < 10:
+        _progress['n'] = n
+        _progress['extensions'] += 1
+        signal.alarm(CASE_WATCHDOG_S)
+        return
     raise _Watchdog()
 
 
@@ -83,6 +100,7 @@ def shard_main(args) -> int:
         it = iter(stream)
         while True:
             # (enumerated families run their base program inside the generator: that run is under the watchdog too)
+            _progress.update(n=-1, extensions=0)
             signal.alarm(CASE_WATCHDOG_S)
             try:
                 case = next(it)
@@ -99,6 +117,7 @@ def shard_main(args) -> int:
             if t_end and time.time() > t_end:
                 out['inconclusive']['budget-exhausted'] += 1
                 break
+            _progress.update(n=-1, extensions=0)
             signal.alarm(CASE_WATCHDOG_S)
             try:
                 res = fam.execute(case, args.property)
